@@ -413,3 +413,10 @@ def thm_renamed_zip():
     with U.decompress("/moved/035900-0540.csv.zip") as plain:
         ensures(disk.files.get(plain) == ("plain", "DATA"), id="a renamed zip archive still decompresses to the identical bytes")
     ensures(sorted(disk.files) == ["/moved/035900-0540.csv.zip"], id="... and nothing is left behind")
+
+
+# these client programs run on the ghost disk (fault injection at every I/O step): a concrete replay would touch the real file
+# system and fail for reasons that have nothing to do with the code under analysis -- no concrete replay
+for _t in REG.theorems:
+    if _t.prop == P:
+        _t.no_concrete_replay = True
